@@ -3,6 +3,7 @@
 import ast, json, os, sys
 sys.path.insert(0, os.path.dirname(os.path.dirname(os.path.abspath(__file__))))
 os.environ["PV_NO_ALPHA"] = "1"
+os.environ["PV_NO_EQUIV"] = "1"
 from pv.model import Model
 from pv import alpha
 m = Model(sys.argv[1] if len(sys.argv) > 1 else None)
@@ -10,3 +11,11 @@ out = {name: alpha.anchors_for(u.tree) for name, u in sorted(m.units.items())}
 out = {k: {f: v for f, v in d.items() if v} for k, d in out.items()}
 json.dump(out, open(alpha.ANCHORS, "w"), indent=0, sort_keys=True)
 print("functions with locals:", sum(len(d) for d in out.values()), "locals:", sum(len(v) for d in out.values() for v in d.values()))
+
+# reference tree for pv/equiv.py: the sources the rules were confirmed on
+import shutil
+ref = os.path.join(os.path.dirname(alpha.ANCHORS), "tree")
+shutil.rmtree(ref, ignore_errors=True)
+for pkg in ("passlib", "libpass"):
+    shutil.copytree(os.path.join(m.root, pkg), os.path.join(ref, pkg), ignore=shutil.ignore_patterns("__pycache__", "*.pyc"))
+print("reference tree:", sum(len(f) for _, _, f in os.walk(ref)), "files")
